@@ -4,12 +4,15 @@ import (
 	"fmt"
 	"reflect"
 	"runtime"
+	"runtime/debug"
 	"strings"
 	"sync/atomic"
 	"time"
 	"unsafe"
 
 	"github.com/whatap/golib/util/queue"
+
+	"verif/vlib"
 )
 
 // qapi is the common face of the two queue types under test. lane 0 is the (only) lane of
@@ -171,26 +174,49 @@ type stall struct {
 // diagnoseStall is called when the generous watchdog fired while consumers were expected to
 // return. It is conclusive (a lost wake-up) only if, observed twice seconds apart, a consumer
 // is parked in Cond.Wait under Get while Size()>0 and nothing was delivered in between.
-// Anything else is a bare timeout: inconclusive.
+// Anything else is a bare timeout: inconclusive. Size() is read through sizeBounded: a leaked
+// goroutine that spins with the queue's lock held must not block the diagnosis itself.
 func diagnoseStall(q qapi, base int, progress func() int64) stall {
 	atomic.AddInt32(&stallsSeen, 1)
-	p1, s1, g1 := countParked(q.parkFrame())-base, q.size(), progress()
+	p1, s1, g1 := countParked(q.parkFrame())-base, sizeBounded(q), progress()
 	time.Sleep(3 * time.Second)
-	p2, s2, g2 := countParked(q.parkFrame())-base, q.size(), progress()
+	p2, s2, g2 := countParked(q.parkFrame())-base, sizeBounded(q), progress()
 	d := map[string]interface{}{"parked_consumers": []int{p1, p2}, "size": []int{s1, s2}, "delivered": []int64{g1, g2}}
+	if s1 < 0 || s2 < 0 {
+		d["note"] = "Size() itself did not return within 2 s (reported as -1): the queue's lock is held by a goroutine that does not come back"
+	}
 	return stall{Conclusive: p1 > 0 && p2 > 0 && s1 > 0 && s2 > 0 && g1 == g2, Detail: d}
 }
 
+// sizeBounded is q.size() with a 2 s bound (-1 = did not return).
+func sizeBounded(q qapi) int {
+	ch := make(chan int, 1)
+	go func() { ch <- q.size() }()
+	t := time.NewTimer(2 * time.Second)
+	defer t.Stop()
+	select {
+	case n := <-ch:
+		return n
+	case <-t.C:
+		return -1
+	}
+}
+
 // The watchdog is generous (20 s) as long as nothing ever stalled in this process. Once a stall
-// has been seen the run already carries a finding or an inconclusive case; later cases then
-// use a shorter one, and after three stalls the cases that park consumers in the blocking Get
+// has been seen (or a sequential section has failed) the run already carries a finding or an
+// inconclusive case; later cases then use a shorter one, and after three stalls the cases that park consumers in the blocking Get
 // are skipped (reported inconclusive), so that a broken wake-up cannot cost hours.
 const watchdog = 20 * time.Second
 
 var stallsSeen int32
 
+// seqFailed is set when a sequential model section (they run first) has reported a violation:
+// the run is decided, and the concurrent sections that follow need not wait generously for a
+// structure that is already known to misbehave.
+var seqFailed int32
+
 func curWatchdog() time.Duration {
-	if atomic.LoadInt32(&stallsSeen) > 0 {
+	if atomic.LoadInt32(&stallsSeen) > 0 || atomic.LoadInt32(&seqFailed) > 0 {
 		return 5 * time.Second
 	}
 	return watchdog
@@ -199,8 +225,10 @@ func curWatchdog() time.Duration {
 func tooManyStalls() bool { return atomic.LoadInt32(&stallsSeen) >= 3 }
 
 // waitDone waits for ch with the watchdog; false means it fired.
-func waitDone(ch <-chan struct{}) bool {
-	t := time.NewTimer(curWatchdog())
+func waitDone(ch <-chan struct{}) bool { return waitFor(ch, curWatchdog()) }
+
+func waitFor(ch <-chan struct{}, d time.Duration) bool {
+	t := time.NewTimer(d)
 	defer t.Stop()
 	select {
 	case <-ch:
@@ -208,6 +236,162 @@ func waitDone(ch <-chan struct{}) bool {
 	case <-t.C:
 		return false
 	}
+}
+
+// waitProgress waits for ch as long as progress() keeps changing; it gives up (false) once
+// nothing has moved for a whole watchdog, and in any case after four watchdogs.
+// Workload shaping only: the caller turns "gave up" into a stop request, never into a verdict.
+func waitProgress(ch <-chan struct{}, progress func() int64) bool {
+	quiet := curWatchdog()
+	hard := time.Now().Add(4 * curWatchdog())
+	last, lastAt := progress(), time.Now()
+	tk := time.NewTicker(20 * time.Millisecond)
+	defer tk.Stop()
+	for {
+		select {
+		case <-ch:
+			return true
+		case <-tk.C:
+		}
+		now := time.Now()
+		if p := progress(); p != last {
+			last, lastAt = p, now
+		}
+		if now.Sub(lastAt) > quiet || now.After(hard) {
+			return false
+		}
+	}
+}
+
+// ---- bounded execution of library calls ------------------------------------------------
+
+// runawayPanic is thrown by the monitor's own Failed/Overflowed callbacks when the library
+// invokes them more often than any history could justify (PutForce's eviction loop
+// `for size >= capacity { RemoveFirst … }` never ends once RemoveFirst stops shrinking the
+// list). The callbacks run on the caller's goroutine with the queue's lock held; the panic
+// unwinds through the library's deferred Unlock, so the lock is released and the caller can
+// report a deterministic verdict instead of spinning (and allocating) until the watchdog.
+type runawayPanic struct{ calls int }
+
+// isRunaway classifies a recovered value; anything else is re-panicked by the callers.
+func isRunaway(e interface{}) bool { _, ok := e.(runawayPanic); return ok }
+
+// cbGuard is the Overflowed callback of the sections that do not evaluate callback arguments:
+// it only counts, and aborts a runaway eviction loop after limit calls.
+type cbGuard struct {
+	calls int64
+	limit int64
+}
+
+func (g *cbGuard) cb(interface{}) {
+	if n := atomic.AddInt64(&g.calls, 1); n > g.limit {
+		panic(runawayPanic{int(n)})
+	}
+}
+
+func installGuard(q qapi, limit int) *cbGuard {
+	g := &cbGuard{limit: int64(limit)}
+	// Overflowed only: Failed is called at most once per refused put, outside any loop
+	q.setCallbacks([2]func(interface{}){nil, nil}, [2]func(interface{}){g.cb, g.cb})
+	return g
+}
+
+type callOutcome struct {
+	Returned bool        // fn came back (normally or by panic)
+	Runaway  bool        // fn was aborted by runawayPanic
+	Panic    interface{} // any other panic value (with Stack)
+	Stack    string
+}
+
+// guardCall runs fn on its own goroutine and waits for it for at most d. A call that does
+// not come back is abandoned (the goroutine is leaked; it can only touch what fn captured).
+func guardCall(d time.Duration, fn func()) callOutcome {
+	ch := make(chan callOutcome, 1)
+	go func() {
+		defer func() {
+			o := callOutcome{Returned: true}
+			if e := recover(); e != nil {
+				if isRunaway(e) {
+					o.Runaway = true
+				} else {
+					o.Panic, o.Stack = e, string(debug.Stack())
+				}
+			}
+			ch <- o
+		}()
+		fn()
+	}()
+	t := time.NewTimer(d)
+	defer t.Stop()
+	select {
+	case o := <-ch:
+		return o
+	case <-t.C:
+		return callOutcome{}
+	}
+}
+
+// rethrow passes a foreign panic on to the caller's goroutine (vlib.Cases reports it).
+func (o callOutcome) rethrow() {
+	if o.Panic != nil {
+		panic(fmt.Sprintf("%v\n%s", o.Panic, o.Stack))
+	}
+}
+
+// ---- abandoning a section --------------------------------------------------------------
+
+// A section whose structure is stuck (a call that never returns, elements that never come
+// out) reports what is conclusive once and gives up its remaining cases: they are counted
+// (abandoned_cases*), not evaluated. Only the main goroutine touches this map.
+var abandonedSections = map[string]string{}
+
+var procStart = time.Now()
+
+func abandonSection(c *vlib.Ctx, section, reason string) {
+	if _, ok := abandonedSections[section]; ok {
+		return
+	}
+	abandonedSections[section] = reason
+	c.Note(fmt.Sprintf("section %s abandoned: %s", section, reason))
+}
+
+// noteSectionStall: a second stall (or aborted runaway) in the same section abandons it.
+var sectionStalls = map[string]int{}
+
+func noteSectionStall(c *vlib.Ctx, section, caseID string) {
+	sectionStalls[section]++
+	if sectionStalls[section] >= 2 {
+		abandonSection(c, section, fmt.Sprintf("second stall in this section (%s)", caseID))
+	}
+}
+
+// overBudget: last line of defence for the child's own watchdog. It can only become true
+// after a stall was seen in this process (a healthy run never consults the clock here) and
+// turns the rest of the run into inconclusive cases.
+func overBudget(c *vlib.Ctx) bool {
+	if atomic.LoadInt32(&stallsSeen) == 0 {
+		return false
+	}
+	limit := 240 * time.Second
+	if c.Thorough() {
+		limit = 1500 * time.Second
+	}
+	return time.Since(procStart) > limit
+}
+
+// skipAbandoned is called first thing in every case.
+func skipAbandoned(c *vlib.Ctx, section string, i int) bool {
+	if _, ok := abandonedSections[section]; !ok && overBudget(c) {
+		abandonSection(c, section, "time budget exhausted after stalls")
+		c.Inconclusive(fmt.Sprintf("%s#%d", section, i), "section abandoned from here on: stalls have used up the time budget of this child")
+	}
+	if _, ok := abandonedSections[section]; ok {
+		c.Count("abandoned_cases", 1)
+		c.Count("abandoned_cases_"+section, 1)
+		c.Eval(-1) // vlib counts one evaluation per case it hands out; this one was not evaluated
+		return true
+	}
+	return false
 }
 
 func fmtID(id uint64) string {
